@@ -193,3 +193,36 @@ def c_integral(ctx, case):
         dens = np.exp(np.asarray(g.log_likelihood(pts))).reshape(A.shape)
         total = np.trapezoid(np.trapezoid(dens, axes[1], axis=1), axes[0])
     ctx.close(total, 1.0, "integral of density", rtol=1e-6, atol=0)
+
+
+def g_highdim(draw):
+    C = gen.integer(draw, 1, 3)
+    F = gen.choice(draw, [8, 16, 24, 32, 48, 64, 23, 21])
+    r = gen.rng(draw)
+    e = gen.choice(draw, [-7, -5, -3, 0, 2, 3, -8])
+    scales = np.full(F, 10.0 ** e) * np.exp(r.uniform(-0.5, 0.5, F))
+    p = gen.gmm_params(draw, C, F, scales=scales, offs=np.zeros(F), allow_zero_floor=False)
+    if gen.boolean(draw):
+        # a collapsed component: every variance at the (default-size) floor
+        p["floors"], p["floor_kind"] = float(np.finfo(float).eps), "default"
+        p["variances"] = np.maximum(p["variances"], p["floors"])
+        p["variances"][0] = p["floors"]
+    X, kind = gen.data_from(draw, p, gen.integer(draw, 1, 6), kind="bulk", r=r)
+    return {"p": p, "X": X, "kind": kind, "exp": int(e)}
+
+
+@REG.obligation("many_features", g_highdim, quick=150, thorough=3000)
+def c_highdim(ctx, case):
+    """With many features the product of a component's variances leaves the double range (1e-14^24, 1e5^64):
+    the normaliser must be formed from the SUM of the log-variances; values stay finite and correct."""
+    p, X = case["p"], case["X"]
+    g = sut.make_gmm(p)
+    logprod = np.log10(p["variances"]).sum(axis=1)
+    ctx.note(bool((np.abs(logprod) > 300).any()), "F=%d" % p["F"], "product-outside-double-range" if (np.abs(logprod) > 307).any() else "product-in-range")
+    want_lw = ref.gmm_log_weighted(X, p["weights"], p["means"], p["variances"])
+    want = logsumexp(want_lw, axis=0)
+    got = np.asarray(g.log_likelihood(X))
+    ctx.finite(got, "log_likelihood (many features)")
+    ctx.close(got, want, "log_likelihood (many features)", rtol=1e-10, atol=1e-9)
+    ctx.close(np.asarray(g.log_weighted_likelihood(X)), want_lw, "log_weighted_likelihood (many features)", rtol=1e-10, atol=1e-9)
+    ctx.close(g.acc_stats(X).log_likelihood, want.sum(), "stats.log_likelihood (many features)", rtol=1e-10, atol=1e-9 * len(X))
